@@ -395,7 +395,12 @@ def _ambiguous_alignment(bc) -> bool:
 # ============================================================================ 1. round trip
 @st.composite
 def s_roundtrip(draw, gcp: bool):
-    return {"box": draw(s_gcp_box() if gcp else s_affine_box()), "ax": draw(s_axes())}
+    case = {"box": draw(s_gcp_box() if gcp else s_affine_box()), "ax": draw(s_axes())}
+    if gcp:
+        # another view of the SAME control-point mapping (what tiling / padding / overviews of one GCP raster are)
+        # wrapped just before: nothing of it may leak into this one
+        case["sibling_first"] = draw(st.sampled_from([None, None, "pad", "zoom_out", "crop", "flip"]))
+    return case
 
 
 def _classify_box(T, bc, ax):
@@ -420,6 +425,18 @@ def o_roundtrip(case, T):
     ny, nx = (int(v) for v in G.shape)
     with warnings.catch_warnings():
         warnings.simplefilter("ignore")
+        sib_kind = case.get("sibling_first") if is_gcp else None
+        if sib_kind:
+            sib = {"pad": lambda: G.pad(2, 3), "zoom_out": lambda: G.zoom_out(2), "crop": lambda: G[ny // 2 :, nx // 3 :],
+                   "flip": lambda: G.zoom_to((ny + 1, nx + 2))}[sib_kind]()
+            if min(int(v) for v in sib.shape) >= 1:
+                xs = mk_xr(sib, dict(ax, band=0, time=0))
+                Rs = xs.odc.geobox
+                sy, sx = (int(v) for v in sib.shape)
+                if Rs is not None:
+                    msg = gcp_points_diff(Rs, sib, list(range(sy)), list(range(sx)), _gcp_tol(bc) * 4)
+                    require(msg is None, "sibling view (%s) of the same GCP mapping: %s", sib_kind, msg)
+                T.cls("gcp_sibling_wrapped_first:" + sib_kind)
         xx = mk_xr(G, ax)
         dims = exp_dims(bc, ax)
         require(tuple(xx.dims) == dims, "dims %r, expected %r", tuple(xx.dims), dims)
